@@ -107,6 +107,8 @@ public:
     Eigen::Map<const Eigen::Quaternion<Scalar>> q1(g_in1.data());
     Eigen::Map<const Eigen::Quaternion<Scalar>> q2(g_in2.data());
     g_out = (q1 * q2).coeffs();
+    // first-order re-normalization: rounding errors in the norm must not accumulate over long products
+    g_out *= Scalar(2) / (Scalar(1) + g_out.squaredNorm());
     if (g_out[3] < Scalar(0)) { g_out *= Scalar(-1); }
   }
 
